@@ -41,7 +41,7 @@ func init() {
 		Findings: map[string]func(v *mon.Violation) bool{},
 		Floors: func(tier string, cover map[string]int64, evals int64) []string {
 			var out []string
-			for _, k := range []string{"op:Generify+Simplify", "op:GenAlter+Alter", "op:Dup", "op:Decompose", "op:Node.Dup", "op:writers", "op:gen.Parser-vs-Generify", "alias:pointer-walk", "alias:mutate-copy", "alias:mutate-original", "kind:time", "kind:big", "enumerated-trees"} {
+			for _, k := range []string{"op:Generify+Simplify", "op:GenAlter+Alter", "op:Dup", "op:Decompose", "op:Node.Dup", "op:writers", "op:gen.Parser-vs-Generify", "op:gen.ParseReader-refill-boundary", "alias:pointer-walk", "alias:mutate-copy", "alias:mutate-original", "kind:time", "kind:big", "enumerated-trees"} {
 				if cover[k] == 0 {
 					out = append(out, "coverage class never reached: "+k)
 				}
@@ -496,6 +496,41 @@ func run(c *mon.Ctx) {
 			c.Violation("gen.Parser", "differs-from-Generify(oj.Parser)", kindClass(a, b), map[string]any{"text": mon.B(src)}, clip(b), clip(a))
 		}
 		c.Distinct(src)
+	}
+	// read-buffer boundaries of gen.Parser.ParseReader: a string (key or value, plain or escaped, after an
+	// escaped string or not) whose opening quote, body or closing quote lands on each offset around the
+	// 4096-byte refill points
+	bi := 0
+	for _, first := range []string{`"plain"`, `"esc\tape"`, `"\u00e9x"`} {
+		for _, target := range []string{`"target"`, `"t\n2"`, `{"key":1}`, `{"k\\y":"v"}`, `12345.5e2`, `true`} {
+			for _, refill := range []int{4096, 8192} {
+				for d := -12; d <= 3; d++ {
+					bi++
+					if !c.Mine(bi) {
+						continue
+					}
+					head := "[" + first + ","
+					pad := refill + d - len(head)
+					doc := head + strings.Repeat(" ", pad) + target + "," + first + "," + target + "]"
+					c.Begin("gen.Parser.ParseReader vs Generify", doc)
+					c.Cover("op:gen.ParseReader-refill-boundary")
+					var gp gen.Parser
+					var op oj.Parser
+					n1, e1 := gp.ParseReader(strings.NewReader(doc))
+					v, e2 := op.Parse([]byte(doc))
+					c.Eval(2)
+					if e1 != nil || e2 != nil {
+						c.Violation("gen.Parser.ParseReader", "error-on-valid-document", "refill-boundary", map[string]any{"text": mon.B(doc)}, "no error", fmt.Sprint(e1, e2))
+						continue
+					}
+					g2 := alt.Generify(v, keep)
+					if a, b := show(n1), show(g2); a != b {
+						c.Violation("gen.Parser.ParseReader", "differs-from-Generify(oj.Parser)", "refill-boundary", map[string]any{"text": mon.B(doc)}, clip(b), clip(a))
+					}
+					c.Distinct(doc)
+				}
+			}
+		}
 	}
 }
 
